@@ -13,13 +13,16 @@ def run(ctx):
                 maxdim=3 if quick else 4, observe_always=True, tag="all operators")
     # focused batches: the predicate-valued variants and the relation-judged operators on
     # neighbouring (adjacent / overlapping / nested) arguments
-    for bias, tag in ((31, "hull_if_exact on neighbours"), (29, "difference"), (28, "simplify_using_context")):
-        pc.run_poly(ctx, ops="all", n_hist=(700 if bias == 31 else 350) if quick else 8000, length=8, maxdim=3, observe_always=False,
-                    bias=bias, first=1000000 * bias, tag=tag)
+    for bias, tag in ((31, "hull_if_exact on neighbours"), (29, "difference"), (28, "simplify_using_context"),
+                      (34, "difference: leastness through verified piece generators"), (37, "conversions C <-> NNC"),
+                      (40, "fold_space_dimensions")):
+        pc.run_poly(ctx, ops="all", n_hist=(700 if bias == 31 else 350 if bias < 34 else 250) if quick else 8000, length=8, maxdim=3,
+                    observe_always=False, bias=bias, first=1000000 * bias, tag=tag)
     for b in broken:
         ctx.violation("proof obligation broken: " + b, {"obligation": b}, found_input=False)
     ctx.assumptions += [
         "each model operator is the relation / intersection / generator union of doc/definitions.dox, computed by the proved K1 kernel",
-        "generator-based operators (hull, time-elapse, add_generators) use the library's generators of a copy only after checkDD verified them against the model set",
+        "generator-based operators (hull, time-elapse, add_generators, fold, the pieces of poly_difference) use the library's generators of a copy only after checkDD verified them against the model set",
+        "positive time-elapse is modelled exactly on constraints; C<->NNC conversions as closure / embedding; congruences: equalities exactly, proper ones as P ∩ cg ⊆ R ⊆ P (refine) or documented exception (add)",
         "Chernikova conversion and the row-level affine transforms are covered end to end only (sampled histories)",
     ]
